@@ -20,6 +20,7 @@ import (
 // Features switches optional generator parts.
 type Features struct {
 	Yield      bool // insert yield(id) / y(id, e) suspension sites (C02)
+	YieldStub  bool // with Yield: emit non-blocking yield functions (the yield-free variant of the same text)
 	Generics   bool // generic helper functions and types (C04)
 	ManyNames  bool // identifier pressure: hundreds of variables in one scope (C16)
 	Hostile    bool // hostile string literals, adjacent signs (C16)
